@@ -372,6 +372,8 @@ def run(facts, rep, ctx):
                 x = strip_refs(x)
                 if x[0] == "call" and x[1] == "std::string::String::new":
                     return "empty"
+                if const_text(x) == "":
+                    return "empty"          # a borrowed `""`
                 dc = direct_component(x, path_param=1)
                 if dc is not None:
                     return dc
@@ -407,6 +409,8 @@ def run(facts, rep, ctx):
             rep.ok(R2, {"fn": hb.name, "table": sorted(map(str, got))})
             for _ in range(3):
                 rep.ok(R2, {"fn": hb.name, "row": "helper"})
+        elif any("?" in (r[2], r[3]) for r in got):
+            rep.inconc(R2, "split helper rows %s: a component's origin was not recognised" % sorted(map(str, got)))
         else:
             rep.violation(R2, hb.name, "helper-table", "split helper rows %s, specified: empty parent -> (file name, \"\"), else (parent, file name)" % sorted(map(str, got)), "%s:%s" % (hb.file, hb.line))
 
